@@ -242,7 +242,8 @@ def main():
         f.write("\n".join(lines) + "\n")
 
 
-BUDGET = {}
+# the exchange world spends ~0.5 s of CPU per run on 2048-bit primality tests
+BUDGET = {"C09": ", QuickS: 60", "C10": ", QuickS: 60", "C12": ", QuickS: 45"}
 
 if __name__ == "__main__":
     main()
